@@ -58,6 +58,9 @@ func LoadAnyCerts(paths []string) (any AnyCerts, err error) {
 
 // Parse one or more PGP certificates from the given possibly-armored blob
 func parsePGP(blob []byte) (openpgp.EntityList, error) {
+	if len(blob) == 0 {
+		return nil, ErrNoCerts
+	}
 	reader := io.Reader(bytes.NewReader(blob))
 	if blob[0] == '-' {
 		block, err := armor.Decode(reader)
